@@ -144,6 +144,19 @@ impl Prop for C01 {
                 return out;
             }
         };
+        // the same tokenizer object used again: another text in between must not change the answer
+        {
+            let other: String = s.chars().rev().take(24).collect();
+            let _ = tok.tokenize(&other, c.ignore_special);
+            let _ = tok.tokenize("", c.ignore_special);
+            match tok.tokenize(s, c.ignore_special) {
+                Ok(t) => ensure!(out, t.token_ids == ids, "the same tokenizer gives a different answer for the same text after tokenizing another text in between"),
+                Err(e) => {
+                    out.fail(format!("second tokenize of the same text failed: {e}"));
+                    return out;
+                }
+            }
+        }
         ensure!(out, ids.len() >= pre.len() + suf.len() && ids[..pre.len()] == pre[..] && ids[ids.len() - suf.len()..] == suf[..],
             "prefix/suffix ids do not frame the output: ids {ids:?}, prefix {pre:?}, suffix {suf:?}");
         let body = &ids[pre.len()..ids.len() - suf.len()];
